@@ -364,6 +364,8 @@ SOUND_SPLITS = {('ABSENCE', 'behaviour'), ('REQUIREMENT', 'behaviour'), ('PREVEN
 def _split_info(t: Term, owner: Term) -> Tuple[Optional[str], List[str]]:
     """for a list of alternatives of `owner` (a scope or pattern term): (split field | None, problems)"""
     probs: List[str] = []
+    if isinstance(t, Call) and isinstance(t.func, Ext) and t.func.name == 'list' and len(t.args) == 1 and isinstance(t.args[0], Comp) and not t.kwargs:
+        t = Comp('list', t.args[0].elt, t.args[0].gens)      # list(e for x in xs) / list(map(f, xs)) is [e for x in xs]
     if isinstance(t, TupleT) and t.kind == 'list':
         if t.items == (owner,):
             return None, probs
